@@ -1,6 +1,11 @@
 HOOK_COMMITS = []
 NOT_APPLICABLE = {}
 TEXTS = {
+ "C06": {
+  "technique": "stateful property-based testing (rapid): generated histories on a file store with close/reopen steps; round-trip oracle on the complete exported state plus behavioural probes",
+  "level_text": "Round-trip oracle over generated API histories on the single-file store with the widest value and index-option generators: at every generated close/reopen the complete exported state must be identical, reloading must be idempotent, the reloaded indexes coherent, and identical probe writes / a TTL pass must behave identically on the pre-close and the reloaded state. Sampling, not proof.",
+  "level_note": "In-process reopen; the cross-process same-second timestamp reuse noted in DESIGN.md is not covered.",
+ },
  "C01": {
   "technique": "stateful model-based property-based testing (rapid): generated driver-API histories checked call by call against an independent sequential reference model",
   "level_text": "Model-based generated search: histories of 10-40 driver calls of every kind, each call's result and the full contents of every collection compared with an independently written sequential model of MongoDB's semantics after every call; calls outside the model's declared domain resynchronise the model and are counted. Thousands (quick) to hundreds of thousands (thorough) of histories; sampling, not proof.",
